@@ -242,6 +242,20 @@ def traced_configurations(rng, thorough):
                     threads=[W_("writer", tupled), W_("writer", plain, disable_tuple_notation=True)]))
     out.append(dict(wopt, name="json_writer-flags-extra-field-vs-strict", setup=wsetup,
                     threads=[W_("json_writer", extra), W_("json_writer", plain, strict=True)]))
+    # the VERY FIRST write of the process done by several threads at once: the forked worker has imported fastavro and parsed
+    # the schema, nothing has been written yet (the sequential reference comes from another process); line-level points in
+    # the encoder's integer path
+    ints = {"type": "record", "name": "Ints", "fields": [{"name": "a", "type": "int"}, {"name": "b", "type": "long"},
+                                                          {"name": "c", "type": {"type": "array", "items": "int"}}]}
+    first = dict(mcalls=None, cap=None, fresh_setup=False, isolate=True, family="preempt", samples=30, random=10 if not thorough else 100,
+                 trace=[["binary_encoder.py", "*"]],
+                 sig="C18:first-write-of-the-process:concurrent-writers:result-differs-from-sequential")
+    out.append(dict(first, name="first-write-x2", setup=[{"api": "parse_schema", "schema": ints, "$out": "I"}],
+                    threads=[[{"api": "schemaless_writer", "schema": {"$slot": "I"}, "record": {"a": 5, "b": -3, "c": [60, -64, 0]}, "kw": {}}],
+                             [{"api": "schemaless_writer", "schema": {"$slot": "I"}, "record": {"a": 63, "b": 7, "c": [1, 2]}, "kw": {}}]]))
+    out.append(dict(first, name="first-write-writer-vs-schemaless", setup=[{"api": "parse_schema", "schema": ints, "$out": "I"}],
+                    threads=[[{"api": "writer", "schema": {"$slot": "I"}, "records": [{"a": 1, "b": 2, "c": [3]}], "kw": {}}],
+                             [{"api": "schemaless_writer", "schema": {"$slot": "I"}, "record": {"a": 62, "b": -64, "c": []}, "kw": {}}]]))
     # deeply nested recursive data in both threads (two linked lists): call-level switch points in the recursive functions
     node = {"type": "record", "name": "Node", "fields": [{"name": "v", "type": "long"}, {"name": "next", "type": ["null", "Node"]}]}
     ndef = {"Node": node}
